@@ -30,6 +30,8 @@ RULE = (
     " Further policies cut only the k-th GETBULK answer below a full row (k = 1..3) or let on"
     "e binding through per answer; for the authenticated levels the device reboots before req"
     "uest 2, 3 or 5 of a two-root bulk walk, which still has to deliver everything."
+    " Policies max_bindings:2/3/4 (a persistent limit), three adjacent columns in every listi"
+    "ng order, walks of more than 4096 instances."
 )
 ASSUMPTIONS = [
     "reference agent's GETBULK (vf/agent.py) follows RFC 3416 4.2.3; all truncation policies used are conformant",
